@@ -358,7 +358,7 @@ void SymmetricTridiagonalSolver<T>::solveSymmetricTridiagonal(T* x, T* scratch)
     // Cholesky Decomposition
     if (!factorized_) {
         for (int i = 1; i < matrix_dimension_; i++) {
-            assert(!equals(main_diagonal(i - 1), 0.0));
+            assert(main_diagonal(i - 1) != 0.0);
             sub_diagonal(i - 1) /= main_diagonal(i - 1);
             main_diagonal(i) -= sub_diagonal(i - 1) * sub_diagonal(i - 1) * main_diagonal(i - 1);
         }
@@ -370,7 +370,7 @@ void SymmetricTridiagonalSolver<T>::solveSymmetricTridiagonal(T* x, T* scratch)
     }
     // Diagonal Scaling
     for (int i = 0; i < matrix_dimension_; i++) {
-        assert(!equals(main_diagonal(i), 0.0));
+        assert(main_diagonal(i) != 0.0);
         x[i] /= main_diagonal(i);
     }
     // Backward Substitution
